@@ -96,7 +96,7 @@ theorem inv_step {s s' : Sys} {l : Label} (h : MigInv s) (hgood : GoodStep s l) 
   obtain ⟨hG, hO, hW⟩ := h
   cases l with
   | inv oid p c =>
-    obtain ⟨⟨g, o, w⟩, hl⟩ := step_inv hG hO hW (hgood.1 oid p c rfl) hs
+    obtain ⟨⟨g, o, w⟩, hl⟩ := step_inv hG hO hW (deletes_blocking c) hs
     exact ⟨⟨g, o, w⟩, hl⟩
   | ret oid r =>
     obtain ⟨⟨g, o, w⟩, hl⟩ := step_ret hG hO hW hs
@@ -202,7 +202,7 @@ theorem inv_step {s s' : Sys} {l : Label} (h : MigInv s) (hgood : GoodStep s l) 
       obtain ⟨⟨g, o⟩, hl⟩ := step_handshake hG hO (Or.inr (Or.inr (Or.inr (Or.inl rfl)))) hs
       exact ⟨⟨g, o, wf_of_ids hW (by simp only [step?] at hs; exact ids_guard hs rfl)⟩, hl⟩
     | D =>
-      obtain ⟨⟨g, o⟩, hl⟩ := step_handshake hG hO (Or.inr (Or.inr (Or.inr (Or.inr ⟨rfl, hgood.2 rfl⟩)))) hs
+      obtain ⟨⟨g, o⟩, hl⟩ := step_handshake hG hO (Or.inr (Or.inr (Or.inr (Or.inr ⟨rfl, hgood rfl⟩)))) hs
       exact ⟨⟨g, o, wf_of_ids hW (by simp only [step?] at hs; exact ids_guard hs rfl)⟩, hl⟩
   | tau t =>
     have hids := ids_stepTau (show stepTau s t = some s' from hs)
